@@ -6,6 +6,7 @@ import (
 	"go/constant"
 	"go/token"
 	"go/types"
+	"os"
 	"regexp"
 	"sort"
 	"strings"
@@ -59,7 +60,10 @@ import (
 //     statements of the helper standing in the function (see "expanded helper
 //     calls": run-once blocks, result temporaries, aliases, decided nil tests);
 //   * an unexported package-level variable without a namesake on the other side
-//     takes the name of the variable with the same definition there.
+//     takes the name of the variable with the same definition there;
+//   * an error temporary that is only assigned, compared with nil and then copied to
+//     its target (`x, err1 := f(); …; err = err1`) is the target's storage, and a call
+//     whose error value reaches nothing carries a note (rules_t5c10.go).
 //
 // Besides the sites, two whole-function multisets are extracted in the same
 // normal form (with comparison orientation canonicalised: a >= b is b <= a,
@@ -952,6 +956,10 @@ type fdWalker struct {
 	// positions of the writes of each variable and the spans of the loops (lazily, rules_rob3c.go)
 	writePos  map[types.Object][]token.Pos
 	loopSpans [][2]token.Pos
+	// calls whose error result is assigned to a plain identifier -> that identifier (lazily, rules_t5c10.go)
+	errDest map[*ast.CallExpr]*ast.Ident
+	// error locals that are only ever assigned and compared with nil (lazily, rules_t5c10.go)
+	errUnread map[types.Object]bool
 }
 
 var fdTmpLocal = regexp.MustCompile("\x00[0-9]+\x00")
@@ -1173,7 +1181,9 @@ func (w *fdWalker) sitesIn(n ast.Node, chain []fdCond) {
 			case w.s.onlyHere[c0.calleeObj(x)]:
 				w.emit("use", func(c *fdCtx) string { return c.expr(x) }, chain, x.Pos())
 			case w.lastIsError(x):
-				w.emit("call", func(c *fdCtx) string { return c.expr(x) }, chain, x.Pos())
+				// (with a note when the error it returns goes nowhere, see rules_t5c10.go)
+				note := w.errorUnused(x)
+				w.emit("call", func(c *fdCtx) string { return c.expr(x) + note }, chain, x.Pos())
 			}
 		}
 		return true
@@ -2260,6 +2270,16 @@ func ForkDiff(fork, up *packages.Package, files map[string]bool, laxObjs map[typ
 				}
 			}
 			fs.noRangeSlice, us.noRangeSlice, fs.usedRangeSlice, us.usedRangeSlice = false, false, false, false
+		}
+		if d := os.Getenv("CTVERIF_C10_DEBUG_FN"); d != "" && d == k {
+			for _, l := range []struct {
+				tag  string
+				list []fdSite
+			}{{"F-SITE", f}, {"U-SITE", u}, {"F-ITEM", fi}, {"U-ITEM", ui}} {
+				for _, s := range l.list {
+					fmt.Printf("%s %s: %s\n", l.tag, k, s.Text)
+				}
+			}
 		}
 		for i := range fi {
 			for j := range ui {
@@ -3373,6 +3393,16 @@ func (w *fdWalker) dropSelfPairs(s *ast.AssignStmt) (*ast.AssignStmt, bool) {
 				l, ok1 := w.path(le)
 				r, ok2 := w.path(s.Rhs[i])
 				self = ok1 && ok2 && l == r
+			}
+		}
+		if !self {
+			// `T = x` where x has been identified with T (rules_t5c10.go)
+			if rid, ok := fdUnparen(s.Rhs[i]).(*ast.Ident); ok {
+				if _, aliased := w.alias[w.s.pkg.TypesInfo.Uses[rid]]; aliased {
+					l, ok1 := w.path(le)
+					r, ok2 := w.path(rid)
+					self = ok1 && ok2 && l == r
+				}
 			}
 		}
 		if !self {
